@@ -1,7 +1,7 @@
 SPECIFICATION InitOnly
 CONSTANTS
   Configs <- RealPbfConfigs
-  Ns = {2, 3, 4}
+  Ns = {2, 3}
   NestSets <- NestThorough
   Bounds <- BoundsLive
   Pools = {FALSE, TRUE}
